@@ -1,6 +1,6 @@
 # World harness: drives the REAL fake_trx objects (FakeTRX, BurstForwarder, TRXList,
-# FakePM, CTRLInterfaceTRX, DATAInterface, CLCKGen.send_clck_ind) in-process, wired by the
-# real Application.append_trx / append_child_trx, with the environment replaced from outside:
+# FakePM, CTRLInterfaceTRX, DATAInterface, CLCKGen) in-process, created and wired by the REAL
+# Application.__init__ from a command line (-R/-r/-P/-p/--trx), with the environment replaced from outside:
 #   * udp_link.socket  -> in-memory sockets (record every sendto, serve injected datagrams)
 #   * clck_gen.threading -> the REAL CLCKGen._worker loop runs in its own OS thread, in lock step with the harness
 #     (StepEvent/StepThread below): op `T` releases exactly one iteration of the loop; clck_gen.time -> constant clock
@@ -19,8 +19,6 @@ import sys, types, logging
 sys.path.insert(0, sys.argv[1])
 sys.path.insert(0, __file__.rsplit("/", 1)[0])
 sys.dont_write_bytecode = True
-import appinit
-APPINIT = appinit.extract(sys.argv[1])
 
 import udp_link, clck_gen, ctrl_if, fake_pm, fake_trx, threading
 from fake_trx import Application, FakeTRX
@@ -197,21 +195,26 @@ if TRACE:
 
 # ---------------------------------------------------------------- world
 def build(extra):
-    app = Application.__new__(Application)
-    app.argv = types.SimpleNamespace(trx_bind_addr=BIND, bts_addr=ADDR["a"], bb_addr=ADDR["b"],
-                                     bts_base_port=5700, bb_base_port=6700, sched_rr_prio=None)
-    # mirrors Application.__init__ (fake_trx.py) without argv/signal/logging set-up
-    app.trx_list = TRXList()
-    app.clck_gen = CLCKGen([], sched_rr_prio=None)
-    app.clck_gen.clck_handler = app.clck_handler
-    app.fake_pm = FakePM(*APPINIT["fake_pm_args"])
-    app.fake_pm.trx_list = app.trx_list
-    app.append_trx(app.argv.bts_addr, app.argv.bts_base_port, **APPINIT["append_trx_kwargs"][0])
-    app.append_trx(app.argv.bb_addr, app.argv.bb_base_port, **APPINIT["append_trx_kwargs"][1])
+    """the REAL Application.__init__ (fake_trx.py) builds the world from a command line: argument parsing with all its
+    defaults, the shared clock generator, FakePM, BTS and MS, the --trx definitions, the burst forwarder.  Environment
+    replaced: signal handlers, the copyright banner and the logging set-up."""
+    argv = ["fake_trx.py", "-b", BIND, "-R", ADDR["a"], "-r", ADDR["b"], "-P", "5700", "-p", "6700"]
     for (addr, port, idx) in extra:
-        app.append_child_trx(ADDR[addr], port, name=None, child_idx=idx)
-    app.burst_fwd = BurstForwarder(app.trx_list.trx_list)
+        argv += ["--trx", "%s:%d/%d" % (ADDR[addr], port, idx)]
+    old = sys.argv
+    sys.argv = argv
+    try:
+        try:
+            app = Application()
+        except SystemExit as e:
+            raise RuntimeError("fake_trx refused its command line (exit %s)" % e.code)
+    finally:
+        sys.argv = old
     return app
+
+fake_trx.signal = types.SimpleNamespace(signal=lambda *a: None, SIGINT=2)
+Application.app_print_copyright = lambda self, *a, **k: None
+Application.app_init_logging = lambda self, *a, **k: None
 
 def hexs(b):
     return b.hex() if len(b) else "-"
